@@ -88,6 +88,18 @@ func svJSONText(sv trustpolicy.SignatureVerification) string {
 	return out + "}"
 }
 
+// BlobPolicyNamedAfterGlobal builds a two-statement blob document: FIRST a global statement ("everything-else") that
+// trusts only otherStore, THEN the named statement "p" with the given settings.
+func BlobPolicyNamedAfterGlobal(sv trustpolicy.SignatureVerification, stores []string, identities []string, otherStore string) *trustpolicy.BlobDocument {
+	text := fmt.Sprintf(`{"version":"1.0","trustPolicies":[{"name":"everything-else","globalPolicy":true,"signatureVerification":{"level":"strict"},"trustStores":[%q],"trustedIdentities":["*"]},{"name":"p","signatureVerification":%s%s%s}]}`,
+		otherStore, svJSONText(sv), member("trustStores", stores), member("trustedIdentities", identities))
+	var d trustpolicy.BlobDocument
+	if err := json.Unmarshal([]byte(text), &d); err != nil {
+		panic("harness bug: policy text: " + err.Error() + " " + text)
+	}
+	return &d
+}
+
 // BlobPolicy builds a one-statement global blob trust policy document.
 func BlobPolicy(sv trustpolicy.SignatureVerification, stores []string, identities []string) *trustpolicy.BlobDocument {
 	text := fmt.Sprintf(`{"version":"1.0","trustPolicies":[{"name":"p","globalPolicy":true,"signatureVerification":%s%s%s}]}`, svJSONText(sv), member("trustStores", stores), member("trustedIdentities", identities))
